@@ -107,9 +107,9 @@ func reg[T any](extra ...form) *entry {
 	return e
 }
 
-func (e *entry) id() *entry                { e.IsID = true; return e }
-func (e *entry) funcs(f ...string) *entry  { e.Funcs = append(e.Funcs, f...); return e }
-func (e *entry) histories() *entry         { e.ViaHistories = true; return e }
+func (e *entry) id() *entry               { e.IsID = true; return e }
+func (e *entry) funcs(f ...string) *entry { e.Funcs = append(e.Funcs, f...); return e }
+func (e *entry) histories() *entry        { e.ViaHistories = true; return e }
 func (e *entry) gen(g func(*rand.Rand, *valgen.Opts) any) *entry {
 	e.Gen = g
 	return e
@@ -312,17 +312,17 @@ var IndirectlyCovered = map[string]struct {
 	Via      string
 	Optional bool
 }{
-	"consensus.applyUpdateJSON{json}":         {Via: "consensus.ApplyUpdate"},
-	"consensus.revertUpdateJSON{json}":        {Via: "consensus.RevertUpdate"},
-	"consensus.elementLeaf.MarshalJSON":       {Via: "consensus.ApplyUpdate / consensus.RevertUpdate (updatedLeaves)", Optional: true},
-	"consensus.elementLeaf.UnmarshalJSON":     {Via: "consensus.ApplyUpdate / consensus.RevertUpdate (updatedLeaves)", Optional: true},
-	"consensus.elementLeaf{json}":             {Via: "consensus.ApplyUpdate / consensus.RevertUpdate (updatedLeaves)", Optional: true},
-	"rhp/v3.SettingsID.LoadString":            {Via: "rhp/v3.SettingsID"},
-	"types.PolicyTypeUnlockConditions{json}":  {Via: "types.SpendPolicy", Optional: true},
-	"rhp/v4.RPCSettingsRequest{json}":         {Via: "rhp/v4 (empty struct)", Optional: true},
-	"rhp/v4.RPCAttachPoolsResponse{json}":     {Via: "rhp/v4 (empty struct)", Optional: true},
-	"rhp/v4.RPCDetachPoolsResponse{json}":     {Via: "rhp/v4 (empty struct)", Optional: true},
-	"types.V2FileContractExpiration{json}":    {Via: "types.V2FileContractResolution", Optional: true},
+	"consensus.applyUpdateJSON{json}":        {Via: "consensus.ApplyUpdate"},
+	"consensus.revertUpdateJSON{json}":       {Via: "consensus.RevertUpdate"},
+	"consensus.elementLeaf.MarshalJSON":      {Via: "consensus.ApplyUpdate / consensus.RevertUpdate (updatedLeaves)", Optional: true},
+	"consensus.elementLeaf.UnmarshalJSON":    {Via: "consensus.ApplyUpdate / consensus.RevertUpdate (updatedLeaves)", Optional: true},
+	"consensus.elementLeaf{json}":            {Via: "consensus.ApplyUpdate / consensus.RevertUpdate (updatedLeaves)", Optional: true},
+	"rhp/v3.SettingsID.LoadString":           {Via: "rhp/v3.SettingsID"},
+	"types.PolicyTypeUnlockConditions{json}": {Via: "types.SpendPolicy", Optional: true},
+	"rhp/v4.RPCSettingsRequest{json}":        {Via: "rhp/v4 (empty struct)", Optional: true},
+	"rhp/v4.RPCAttachPoolsResponse{json}":    {Via: "rhp/v4 (empty struct)", Optional: true},
+	"rhp/v4.RPCDetachPoolsResponse{json}":    {Via: "rhp/v4 (empty struct)", Optional: true},
+	"types.V2FileContractExpiration{json}":   {Via: "types.V2FileContractResolution", Optional: true},
 }
 
 // CoveredDecls computes, by reflection over the registry, the set of source
